@@ -1084,7 +1084,7 @@ pub fn work_list(cfg: &RunCfg) -> Option<WorkList> {
     }
     for w in [
         "", "a*", "a*?", "\\b", "(?=a)", "\\G\\d*", "\\Ga", "\\G", "a|\\G", "\\Ga|b", "(?:\\Ga)+", "a\\Kb", "\\Ka", "(?<=a)\\Kb", "a|(?<=\\Ka)b", "(?=a\\K)", "x*(?=b)", "(?m:^)", "$", "\\d*", "(a)|b", "(?<n>a)|(?<m>b)",
-        "(?<year>\\d)(?<m>-)?", "(a)(b)?(c)*", "é*", "(?<=é)", "\\b|a", "(?!a)", "a??", "(?:a|\\G)b", "[ab]*?(?=b)", "(?>a*)\\b", "\\G(?=a)",
+        "(?<year>\\d)(?<m>-)?", "(a)(b)?(c)*", "(?P<outer>a(b))c", "(?P<outer>a(b))(?=c)", "(?P<o>(?P<i>a)b)", "(?<o>(?P<i>a)(c))?b", "(?P<x>(a)|(b))(?=)", "é*", "(?<=é)", "\\b|a", "(?!a)", "a??", "(?:a|\\G)b", "[ab]*?(?=b)", "(?>a*)\\b", "\\G(?=a)",
     ]
     .iter()
     {
